@@ -48,9 +48,12 @@ CLASSES: List[Tuple[int, str, List[str], str, dict]] = [
     (30, "c18z", ["Émile"], "S", {"base": None, "define": True}),
     (31, "c18z", ["A1"], "S", {"base": 10, "define": True}),        # same __name__ as c18w.A1, other module, subclass of it
     (40, "uuid", ["UUID"], "R", {"real": uuid.UUID}),
+    (44, "datetime", ["date"], "R", {"real": datetime.date}),       # base of datetime.datetime; registered BEFORE it
     (41, "datetime", ["datetime"], "R", {"real": datetime.datetime}),
     (42, "fractions", ["Fraction"], "R", {"real": fractions.Fraction}),
     (43, "c18w", ["RegPoint"], "R", {}),
+    (45, "c18w", ["RegBase"], "R", {}),                             # harness pair in a subclass relationship,
+    (46, "c18w", ["RegDerived"], "R", {"base": 45}),                # registered base first, each with its own (de)serialiser
     (50, "c18w", ["Outer"], "P", {}),
     (52, "c18w", ["Outer", "Inner"], "S", {"base": None, "define": True, "nested_in": 50}),          # K_nested: not found
     (60, "c18z", ["Inner"], "S", {"base": None, "define": True}),
@@ -59,6 +62,7 @@ CLASSES: List[Tuple[int, str, List[str], str, dict]] = [
     (64, "c18z", ["factory", "<locals>", "Local"], "S", {"base": None, "define": True, "local": True}),  # K_nested: local
 ]
 NESTED = {cid for cid, _, q, _, _ in CLASSES if len(q) > 1}
+INPLACE = {10, 21, 24, 31, 60}      # defining classes that extend super().to_json() in place (their heirs 12, 23, 26 too)
 SER_OK = [cid for cid, _, q, k, _ in CLASSES if k == "S" and len(q) == 1]
 REG_OK = [cid for cid, _, q, k, _ in CLASSES if k == "R"]
 DEPTH_OF = {10: 1, 12: 2, 13: 3, 15: 4, 21: 1, 23: 2, 24: 3, 26: 4, 30: 1, 31: 2, 60: 1, 52: 1, 62: 1, 64: 1}
@@ -90,16 +94,27 @@ def world() -> Dict[str, Any]:
     def eq(self, other):
         return type(self) is type(other) and type(self.own) is type(other.own) and self.own == other.own and self.kids == other.kids
 
-    def layout0():
+    # style of a defining class: "copy" builds a new dict from super().to_json(); "inplace" extends the dict that
+    # super().to_json() returned (`data = super().to_json(); data.update(...)`, the style of the repository's own tests)
+    def layout0(inplace=False):
         def tj(self):
+            if inplace:
+                data = SubclassJSONSerializer.to_json(self)
+                data.update({"own": self.own, "kids": [to_json(k) for k in self.kids]})
+                return data
             return {**SubclassJSONSerializer.to_json(self), "own": self.own, "kids": [to_json(k) for k in self.kids]}
 
         def fj(c, data, **kw):
             return c(data["own"], [from_json(k) for k in data["kids"]])
         return tj, classmethod(fj)
 
-    def layout1():
+    def layout1(inplace=False):
         def tj(self):
+            if inplace:
+                data = SubclassJSONSerializer.to_json(self)
+                data["children"] = [to_json(k) for k in self.kids]
+                data["payload"] = self.own
+                return data
             return {**SubclassJSONSerializer.to_json(self), "children": [to_json(k) for k in self.kids], "payload": self.own}
 
         def fj(c, data, **kw):
@@ -114,13 +129,14 @@ def world() -> Dict[str, Any]:
         if kind == "S":
             bases = (cls[how["base"]],) if how.get("base") else (SubclassJSONSerializer,)
             if how["define"]:
-                tj, fj = layout0() if cid % 2 == 0 else layout1()
+                inplace = cid in INPLACE
+                tj, fj = layout0(inplace) if cid % 2 == 0 else layout1(inplace)
                 ns.update(to_json=tj, _from_json=fj)
             if not how.get("base"):
                 ns.update(__init__=init, __eq__=eq, __hash__=None,
                           __repr__=lambda self: f"{type(self).__qualname__}({self.own!r}, {self.kids!r})")
         else:
-            bases = ()
+            bases = (cls[how["base"]],) if how.get("base") else ()
         c = type(qual[-1], bases, ns)
         cls[cid] = c
         if len(qual) == 1:
@@ -138,6 +154,14 @@ def world() -> Dict[str, Any]:
         reg.register(c, lambda o: {TAG: get_full_class_name(type(o)), "value": enc(o)}, lambda data, **kw: dec(data["value"]))
 
     register(RP, lambda o: [o.x, o.y], lambda v: RP(v[0], v[1]))
+    RB, RD = cls[45], cls[46]
+    RB.__init__ = lambda self, x=0: setattr(self, "x", x)
+    RB.__eq__ = lambda self, o: type(o) is type(self) and vars(self) == vars(o)
+    RB.__hash__ = None
+    RD.__init__ = lambda self, x=0, y=0: (setattr(self, "x", x), setattr(self, "y", y)) and None
+    register(RB, lambda o: [o.x], lambda v: RB(v[0]))                      # base first ...
+    register(RD, lambda o: [o.x, o.y], lambda v: RD(v[0], v[1]))           # ... then the derived type
+    register(datetime.date, lambda o: [o.year, o.month, o.day], lambda v: datetime.date(v[0], v[1], v[2]))   # base first
     register(datetime.datetime, lambda o: o.isoformat(), datetime.datetime.fromisoformat)
     register(fractions.Fraction, lambda o: [o.numerator, o.denominator], lambda v: fractions.Fraction(v[0], v[1]))
     _WORLD.update(cls=cls, cid={id(c): k for k, c in cls.items()})
@@ -233,6 +257,12 @@ def build(d):
         return fractions.Fraction(own[0], own[1])
     if cid == 43:
         return c(own[0], own[1])
+    if cid == 44:
+        return datetime.date(own[0], own[1], own[2])
+    if cid == 45:
+        return c(own[0])
+    if cid == 46:
+        return c(own[0], own[1])
     return c(own, [build(x) for x in kids])
 
 
@@ -279,6 +309,12 @@ def enc(r):
     if cid == 42:
         return [6, cid, enc_jv([r.numerator, r.denominator]), []]
     if cid == 43:
+        return [6, cid, enc_jv([r.x, r.y]), []]
+    if cid == 44:
+        return [6, cid, enc_jv([r.year, r.month, r.day]), []]
+    if cid == 45:
+        return [6, cid, enc_jv([r.x]), []]
+    if cid == 46:
         return [6, cid, enc_jv([r.x, r.y]), []]
     return [6, cid, enc_jv(r.own), [enc(x) for x in r.kids]]
 
@@ -348,6 +384,7 @@ STRS = ["", "a", "abc", " ", "é", "日本語", "😀", "\ud800", "\udfff\ud800"
 OWNS = [None, True, False, 0, 1, -5, 2 ** 70, "", "p", "é😀", [], [1, 2, 3], [0], ["x", None, True]]
 UUIDS = ["00000000-0000-0000-0000-000000000000", "12345678-1234-5678-1234-567812345678", "ffffffff-ffff-ffff-ffff-ffffffffffff"]
 DATES = ["2020-01-01T00:00:00", "1999-12-31T23:59:59.999999", "0001-01-01T00:00:00", "9999-12-31T23:59:59", "2024-02-29T12:30:00+02:00"]
+DAYS = [[2024, 2, 29], [1, 1, 1], [9999, 12, 31], [1970, 1, 1]]
 FRACS = [[0, 1], [1, 3], [-7, 2], [2 ** 70, 3], [1, 2 ** 64 + 1]]
 
 
@@ -383,6 +420,12 @@ def gen_reg(rng) -> list:
         return ["o", 41, rng.choice(DATES), []]
     if cid == 42:
         return ["o", 42, rng.choice(FRACS), []]
+    if cid == 44:
+        return ["o", 44, rng.choice(DAYS), []]
+    if cid == 45:
+        return ["o", 45, [rng.randint(-9, 9)], []]
+    if cid == 46:
+        return ["o", 46, [rng.randint(-9, 9), rng.randint(-9, 9)], []]
     return ["o", 43, [rng.randint(-9, 9), rng.choice(INTS)], []]
 
 
@@ -400,6 +443,26 @@ def gen_value(rng, list_depth: int, obj_depth: int, nested_p: float) -> list:
         n = rng.choice([0, 0, 1, 1, 2, 3])
         return ["o", cid, rng.choice(OWNS), [gen_value(rng, list_depth, obj_depth - 1, nested_p) for _ in range(n)]]
     return gen_leaf(rng)
+
+
+def gen_same_class(rng, nested_p: float) -> list:
+    """a value that holds several DIFFERENT instances of ONE class (siblings in a list / kids of one object / parent and
+    child), with different payloads -- aliasing between the serialised forms of instances of a class shows up only here"""
+    cid = rng.choice(SER_OK)
+    k = rng.randint(2, 4)
+    owns = rng.sample(OWNS, k)
+    insts = [["o", cid, owns[i], [gen_value(rng, 1, 1, nested_p) for _ in range(rng.choice([0, 0, 1, 2]))]] for i in range(k)]
+    shape = rng.randint(0, 3)
+    if shape == 0:
+        return ["l", insts]
+    if shape == 1:
+        return ["o", rng.choice(SER_OK), rng.choice(OWNS), insts]
+    if shape == 2:                                   # a chain: each instance is a kid of the previous one
+        v = insts[0]
+        for x in insts[1:]:
+            v = ["o", cid, x[2], [v] + x[3]]
+        return v
+    return ["l", [["l", insts[:1]], insts[1], ["o", rng.choice(SER_OK), 0, insts[2:]]]]
 
 
 def has_class(e, cid) -> bool:
@@ -444,6 +507,11 @@ def fixed_cases() -> List[list]:
         out.append(["o", cid, 7, [["i", 1], ["l", []], ["o", cid, "k", []]]])
     for own in OWNS:
         out.append(["o", 13, own, []])
+    for cid in SER_OK:                      # two and three different instances of one class, as siblings and as parent/child
+        out.append(["l", [["o", cid, "small", []], ["o", cid, "big", []]]])
+        out.append(["o", cid, 1, [["o", cid, 2, []], ["o", cid, 3, [["i", 4]]]]])
+    out += [["o", 44, d, []] for d in DAYS] + [["o", 45, [3], []], ["o", 46, [3, 4], []]]
+    out.append(["l", [["o", 44, DAYS[0], []], ["o", 41, DATES[1], []], ["o", 45, [1], []], ["o", 46, [1, 2], []], ["o", 10, 0, [["o", 41, DATES[0], []], ["o", 46, [5, 6], []]]]]])
     # a chain through every class, lists in between
     v: list = ["n"]
     for cid in SER_OK:
@@ -497,6 +565,9 @@ def gen_cases(tier: str, seed: int) -> List[list]:
     for i in range(n):
         ld = rng.choice([1, 2, 3, 4, 4])
         od = rng.choice([1, 2, 3, 4])
+        if i % 5 == 4:
+            out.append(gen_same_class(rng, 0.02))
+            continue
         v = gen_value(rng, ld, od, 0.04)
         if v[0] not in ("l", "o") and rng.chance(0.85):      # mostly containers at the top
             kids = [v] + [gen_value(rng, ld - 1, od, 0.04) for _ in range(rng.randint(0, 3))]
@@ -533,7 +604,8 @@ def run(tier: str, seed: int, replay=None) -> int:
                   "classes are importable: their module is in sys.modules / on the path, and binds the class under its __name__ (F)",
                   "tuples, sets, dicts and NaN are outside the statement's value grammar and are not generated"]
     rep.rule = ("fixed edge list (every leaf kind incl. 2**70, +-inf, -0.0, lone surrogates, NUL, empty and 4-deep lists, every class of 3 subclass chains "
-                "of depth 1-4, 4 registered third-party types) + seeded grammar-directed random values (list depth <= 4, object depth <= 4, ~4% with a "
+                "of depth 1-4 in both styles of extending super().to_json() (copy / in-place), 7 registered third-party types incl. two base/derived "
+                "pairs registered base-first, 2-4 different instances of one class as siblings / kids / parent-child in every 5th random value) + seeded grammar-directed random values (list depth <= 4, object depth <= 4, ~4% with a "
                 "nested/local serialiser class = known-finding class); thorough adds all values of <= 4 nodes over a 7-leaf alphabet; "
                 "non-trivial = contains at least one list or object; distinct = distinct value")
     ok_spec, log = core.coq_make(["Base/Sx.vo", "Json/JsonVal.vo", "Json/SerializerSpec.vo"])
@@ -624,14 +696,16 @@ def run(tier: str, seed: int, replay=None) -> int:
     # report the smallest failing cases first
     bad.sort(key=lambda b: len(json.dumps(b[0])))
     reported = set()
-    for d, im, code in bad[:40]:
+    for d, im, code in bad[:200]:
         if len(reported) >= 5:
             break
         d = shrink(d, im) if not replay else d
-        if json.dumps(d) in reported:
-            continue
-        reported.add(json.dumps(d))
         im = run_impl(d)
+        # one report per kind of failure: (classes involved, outcome kind) -- so different symptoms of one change all show
+        sig = json.dumps([sorted({x[1] for x in walk(d) if x[0] == "o"}), im[:2] if im[0] in (20, 30) else im[0]])
+        if sig in reported:
+            continue
+        reported.add(sig)
         try:
             exprs = [f"spec_round_trip {vterm(d)}"] + ([f"model_round_trip W {vterm(d)}"] if model_ok else [])
             vals = core.coq_eval_sx(PROP, header if model_ok else header_spec, exprs)
